@@ -307,6 +307,7 @@ fn main() {
             let fixed: Vec<Option<String>> = cases.iter().map(|c| c.fixed_out.clone()).collect();
             run_and_judge(prop, tier, seed, &lines, &fixed, ncorpus, outdir);
         }
+        "gammainfo" => seeds::gammainfo(),
         "keysearch" => {
             // vh keysearch <N> <start> <count> <outfile>
             seeds::keysearch(args[2].parse().unwrap(), args[3].parse().unwrap(), args[4].parse().unwrap(), &args[5]);
